@@ -35,7 +35,42 @@ CLAIMED += [
      "technique": "Coq proof (lia with Euclidean division, finite-domain reflection for the in-era calendar) + extracted-model differential testing + direct oracle in Go"},
 ]
 
+
+CLAIMED += [
+    {"id": "C01",
+     "text": "Column and block codecs as a deep embedding (type tree / Go struct contents / row values): for every type tree (any nesting of Array, Nullable, LowCardinality, Map, Tuple, Named over every element kind), every well-formed contents within the row cap, either build on either side and any trailing bytes, DecodeColumn(EncodeColumn d) = d with exact consumption (hence equal Rows() and Row(i)); state prefixes round-trip; whole blocks round-trip into typed targets at every revision (block info iff the revision has it, names filled in). Proved by induction over the type tree; closed under the global context.",
+     "note": COMMON_NOTE + "Little-endian host for the unsafe codecs. LowCardinality over Float / Nullable / Date elements is outside the modelled nestings (Go map-key equality vs bit equality; lossy element conversion). Block level assumes Conflicts reflexive (proved in C19) and targets adopting their own type string; inference-path blocks are exercised by the C18 family. Buffer independence holds by construction in the model and is tied by encoding into non-empty buffers in both builds.",
+     "technique": "Coq proof (structural induction over the column type tree, dictionary/offset invariants) + extracted-model correspondence on real columns dumped by reflection (both builds) + direct round-trip oracle"},
+    {"id": "C06",
+     "text": "For every byte string, every type tree (no empty tuple, element widths within the widest codec) and every declared row count within the cap, DecodeColumn / DecodeState+DecodeColumn never panics and never requests memory beyond rows-cap x element width while the bytes are absent (no Crash in the model); counts beyond the cap are refused before allocation; whatever is accepted is consistent: Rows() equals the block's row count and every Row(i) is readable; message decoders never crash; data-dependent loops never run out of fuel.",
+     "note": COMMON_NOTE + "partial: resident memory and stack depth are runtime facts, observed under an address-space limit (a dying harness process is reported with the pending input). Default-build Bool bytes other than 0/1 are excluded from the consistency theorem (they are kept as they are). Defects 4, 5, 19 were repaired in /repo.",
+     "technique": "Coq proof (no-crash + allocation-bound combinators over the parser monad, induction over the type tree) + field-targeted mutation correspondence in both builds under a memory limit"},
+    {"id": "C07",
+     "text": "A decoder that never looks past what it consumes and consumes an encoding exactly rejects every proper prefix of it (proved once); every column decoder (any type tree), every message layout at every revision, Query, BlockInfo and the block header are such decoders, so every cut position is rejected; every proper prefix of a compressed frame (any method) fails the first read.",
+     "note": COMMON_NOTE + "Compressed half uses CompressProofs (hash/codec as Section variables). Whole-block cuts follow from the column, header and message theorems; the harness cuts column encodings and messages at every position (stride for long ones in the quick tier), frames are cut by the C05 family.",
+     "technique": "Coq proof (monotonicity of parsers + exact consumption => prefix rejection) + exhaustive cut-position correspondence"},
+    {"id": "C08",
+     "text": "Decoding is independent of transport segmentation: for every chunking, short-read oracle and bufio state, io.ReadFull/UVarInt/StrRaw and every reader program (compression on or off) through bufio+conn equal the same on the concatenated bytes (value, error, consumed); the receive loop with read deadlines depends only on bytes and gap positions; k timeouts before a packet are neutral.",
+     "note": COMMON_NOTE + "Hand-written model of net.Conn/bufio/io.ReadFull/compress.Reader/proto.Reader/packet/receive loop; decoders covered as reader programs (realizers proved for all primitives and message layouts; column/block decoders via the generic theorem). partial: the whole-loop gap theorem is proved for one boundary with any continuation, not for gaps before every packet at once; real deadlines are observed.",
+     "technique": "Coq simulation proofs (layered reader <= gapped stream <= flat stream; free-monad reader programs) + differential segmentation oracle on the real client (all 2^(n-1) splits of short streams, two-piece at every offset, random, byte-by-byte, real deadlines)"},
+    {"id": "C11",
+     "text": "For every history of Acquire / Release (repeated) / Do (ok, exception, cut, cancelled) / Ping / Pool.Do / Pool.Ping / health-check steps / time / goroutine completions / Close, with any number of handles: puddle never panics; a resource has at most one holder; total <= MaxConns; a connection released closed or past its lifetime is destroyed and never held or idle again; a repeated Release changes nothing; a health check destroys exactly the expired idle connections; after Close, release of all handles and completion of puddle's goroutines every connection is closed.",
+     "note": COMMON_NOTE + "partial: puddle v2.2.2 is modelled as atomic pool operations (its internal concurrency is trusted; MinConns = 0; ch.Client's outcome is the environment's choice). chpool.Client.Release was repaired in /repo (0c2e9e5).",
+     "technique": "Coq proof (invariant preserved by every operation, induction over histories, absorbing-status relation) + step-by-step correspondence of the real chpool.Pool over an in-memory server (exhaustive short histories, random, timed) + concurrent runs under -race"},
+    {"id": "C13",
+     "text": "Handshake: for every client/server revision, credentials and segmentation, a hello arriving before the handshake timeout yields a client at min(client, server) with ServerInfo as sent and the addendum sent iff the revision has it; every later query/progress is encoded/decoded at that revision; exception, other packet, garbage, truncated hello, cut or silence give an error (carrying the exception), never a client, and Dial closes its connection (22 theorems, closed).",
+     "note": COMMON_NOTE + "partial: abstract clock; real-time behaviour (arrival vs deadline, the Close race at the deadline instant in Connect) observed with >= 100 ms margins. Fixes cde2962 (Dial closes) and 4b29431 (hello bounded by HandshakeTimeout) are mirrored.",
+     "technique": "Coq proof over an executable handshake model (round-trip / prefix-rejection reuse, constant obligation FeatureQuotaKey <= FeatureAddendum) + correspondence of ch.Connect/ch.Dial + Ping/Do over a scripted net.Conn"},
+    {"id": "C15",
+     "text": "Both builds of the codecs produce the same bytes for every type tree and contents, decode what either wrote to the same column, and each decodes the other's output to the original (theorems over the two model variants); the generated codec table re-read from the source is consistent (sizes, complementary build constraints); the same seeded cases run by harness binaries compiled without and with -tags purego give identical observations.",
+     "note": COMMON_NOTE + "The unsafe variants are modelled for a little-endian host (host_repr), which is what their build constraint selects. Bool bytes other than 0/1 are outside the property (divergence lemma proved). Defect 1 (purego UUID) repaired in /repo.",
+     "technique": "Coq proof (variant equivalence by induction over the type tree + table obligations by computation) + two-build differential run incl. exhaustive narrow element types and fresh/reset targets"},
+    {"id": "C16",
+     "text": "For every column type tree, every usable start state (whatever stale dictionary, keys or raw codes it holds) and every finite history over Append, AppendArr, Reset, Prepare, EncodeColumn, WriteColumn+Flush, EncodeRawBlock, Infer and Reset+Decode of any in-memory input, after every step the accessors report exactly the plain list of values, every encoding decodes in either build to exactly the column encoded, re-encoding without change re-sends the same bytes, and Reset+Decode leaves what a fresh column gives (11 theorems, closed).",
+     "note": COMMON_NOTE + "Reset is the empty column; WriteColumn is modelled as EncodeColumn's bytes (C14) and re-checked on real columns; after a failed decode or Prepare nothing is claimed until the next Reset; Infer modelled for same-layout parameter changes. Defects repaired in /repo: dd430ea (LowCardinality.Prepare), 72b3f8b (DateTime64 zone), dd6eb72 (Enum definitions).",
+     "technique": "Coq proof (append/prepare/decode invariants by induction over type trees, one-step refinement of a list-of-values spec, induction over histories) + per-step correspondence on real column objects (exhaustive short + random long histories, both builds)"},
+]
+
 _PENDING = "check not built yet in this tree (construction order in DESIGN.md section 11); will be claimed once its props/ file compiles"
 NOT_APPLICABLE = [(i, _PENDING) for i in
-                  ["C01", "C02", "C03", "C04", "C06", "C07", "C08", "C09", "C10", "C11", "C12", "C13",
-                   "C15", "C16", "C18"]]
+                  ["C02", "C03", "C04", "C09", "C10", "C12", "C18"]]
